@@ -201,3 +201,44 @@ func (c *Ctx) escapeFn() *ssa.Function {
 	}
 	return nil
 }
+
+// finalizeFn: the function every by-value accessor of Buffer runs on its copy
+// before it hands bytes (or their count) out: the unexported pointer-receiver
+// method of Buffer that all exported value-receiver methods returning the
+// content call and that reaches the escape routine.
+func (c *Ctx) finalizeFn() *ssa.Function {
+	esc := c.escapeFn()
+	if esc == nil {
+		return nil
+	}
+	count := map[*ssa.Function]int{}
+	accessors := 0
+	for _, fn := range c.P.ModuleFunctions() {
+		if recvNamed(fn) != tBuffer || fn.Object() == nil || !fn.Object().Exported() || fn.Signature.Recv() == nil {
+			continue
+		}
+		if _, isPtr := fn.Signature.Recv().Type().(*types.Pointer); isPtr {
+			continue
+		}
+		// a value-receiver accessor returning the content
+		res := fn.Signature.Results()
+		if res.Len() != 1 {
+			continue
+		}
+		accessors++
+		for _, g := range c.staticCallees(fn) {
+			if recvNamed(g) == tBuffer && (g.Object() == nil || !g.Object().Exported()) && c.reach(g, true)[esc] {
+				count[g]++
+			}
+		}
+	}
+	var best *ssa.Function
+	for g, n := range count {
+		if n == accessors && accessors >= 2 {
+			if best == nil || g.String() < best.String() {
+				best = g
+			}
+		}
+	}
+	return best
+}
